@@ -130,6 +130,7 @@ def run_D1(ctx, case):
         return None
     it.hooks['_ZN7randomx18executeSuperscalarERA8_mRNS_18SuperscalarProgramEPSt6vectorImSaImEE'] = exe
     out = it.mem.alloc(64, 'out')
+    it.mem.share('cache', 'cache_memory')      # the cache is shared by every thread computing items: read-only here (C14 footprint)
     it.call(mod.find('_ZN7randomx15initDatasetItemEP13randomx_cachePhm'), [cache, out, item])
     # ---- spec 7.3, compared stage by stage (cut points at the inputs of each SuperscalarHash execution)
     def B(v): return z3.BitVecVal(v, 64)
